@@ -1707,3 +1707,43 @@ func errBranchAfter(call *ssa.Call, ret *ssa.Return) *ssa.BasicBlock {
 	}
 	return b.Succs[1]
 }
+
+// fieldBase: the struct value/pointer whose field the address v denotes (nil when v is not a field address).
+func fieldBase(v ssa.Value) ssa.Value {
+	if _, base, ok := fieldOfAddr(v); ok {
+		return base
+	}
+	return nil
+}
+
+func isComplitAlloc(v ssa.Value) bool {
+	al, ok := v.(*ssa.Alloc)
+	return ok && al.Comment == "complit"
+}
+
+// fieldReadOf: v reads field i of a struct value or of a spilled struct parameter: (i, the struct value); (-1, nil) otherwise.
+func fieldReadOf(v ssa.Value) (int, ssa.Value) {
+	switch x := v.(type) {
+	case *ssa.Field:
+		return x.Field, x.X
+	case *ssa.UnOp:
+		if fa, ok := x.X.(*ssa.FieldAddr); ok && x.Op == token.MUL {
+			if al, isA := fa.X.(*ssa.Alloc); isA {
+				// a parameter kept in memory: the value stored there
+				var val ssa.Value
+				n := 0
+				for _, r := range *al.Referrers() {
+					if st, isSt := r.(*ssa.Store); isSt && st.Addr == ssa.Value(al) {
+						val = st.Val
+						n++
+					}
+				}
+				if n == 1 {
+					return fa.Field, val
+				}
+			}
+			return fa.Field, fa.X
+		}
+	}
+	return -1, nil
+}
